@@ -204,8 +204,8 @@ impl Property for C08 {
     }
     fn cases(&self, tier: Tier) -> u32 {
         match tier {
-            Tier::Quick => 700,
-            Tier::Thorough => 10_000,
+            Tier::Quick => 2_500,
+            Tier::Thorough => 25_000,
         }
     }
     fn rule(&self) -> String {
